@@ -995,6 +995,68 @@ fn wake_send_waiters<T>(waiters: &mut LinkedList<SendWaitQueueEntry<T>>) {''',
             let s = std::format!("{}", elapsed.as_millis());
             s.parse::<u64>().unwrap_or(0)''',
      'expect': {'C18': ['C18.B']}},
+    # ---------------------------------------------------------------- C19
+    {'name': 'arraybuf-drop-no-advance', 'file': 'src/buffer/ring_buffer.rs',
+     'old': '''                arr_ptr.add(self.recv_idx).drop_in_place();
+            }
+            self.recv_idx = self.next_idx(self.recv_idx);
+            self.size -= 1;''',
+     'new': '''                arr_ptr.add(self.recv_idx).drop_in_place();
+            }
+            self.size -= 1;''',
+     'expect': {'C19': ['C19.R1']}},
+    {'name': 'arraybuf-drop-from-send-idx', 'file': 'src/buffer/ring_buffer.rs',
+     'old': '''                arr_ptr.add(self.recv_idx).drop_in_place();''',
+     'new': '''                arr_ptr.add(self.send_idx).drop_in_place();''',
+     'expect': {'C19': ['C19.R1']}},
+    {'name': 'arraybuf-pop-no-size-dec', 'file': 'src/buffer/ring_buffer.rs',
+     'old': '''        self.recv_idx = self.next_idx(self.recv_idx);
+        self.size -= 1;
+        val''',
+     'new': '''        self.recv_idx = self.next_idx(self.recv_idx);
+        if self.recv_idx != 0 { self.size -= 1; }
+        val''',
+     'expect': {'C19': ['C19.R2']}},
+    {'name': 'heapbuf-pop-back', 'file': 'src/buffer/ring_buffer.rs',
+     'old': '''            debug_assert!(self.buffer.len() > 0);
+            self.buffer.pop_front().unwrap()''',
+     'new': '''            debug_assert!(self.buffer.len() > 0);
+            self.buffer.pop_back().unwrap()''',
+     'expect': {'C19': ['C19.R4']}},
+    {'name': 'arraybuf-next-idx-off-by-one', 'file': 'src/buffer/ring_buffer.rs',
+     'old': '''        if last_idx + 1 == self.capacity() {
+            return 0;
+        }''',
+     'new': '''        if last_idx == self.capacity() {
+            return 0;
+        }''',
+     'expect': {'C19': ['C19.R2']}},
+    {'name': 'arraybuf-push-at-recv-idx', 'file': 'src/buffer/ring_buffer.rs',
+     'old': '''            arr_ptr.add(self.send_idx).write(value);''',
+     'new': '''            arr_ptr.add(self.recv_idx + self.size).write(value);''',
+     'expect': {'C19': ['C19.R1']}},
+    {'name': 'arraybuf-can-push-off-by-one', 'file': 'src/buffer/ring_buffer.rs',
+     'old': '''    fn can_push(&self) -> bool {
+        self.len() != self.capacity()
+    }
+
+    #[inline]
+    fn push(&mut self, value: Self::Item) {
+        assert!(self.can_push());
+        // Safety: We asserted''',
+     'new': '''    fn can_push(&self) -> bool {
+        self.len() <= self.capacity()
+    }
+
+    #[inline]
+    fn push(&mut self, value: Self::Item) {
+        assert!(self.can_push());
+        // Safety: We asserted''',
+     'expect': {'C19': ['C19.R5', 'C19.R1']}},
+    {'name': 'fixedbuf-can-push-ignores-cap', 'file': 'src/buffer/ring_buffer.rs',
+     'old': '''            self.buffer.len() != self.cap''',
+     'new': '''            self.buffer.len() != self.buffer.capacity()''',
+     'expect': {'C19': ['C19.R4'], 'C18': ['C18.B3']}},
 ]
 
 BENIGN = [
